@@ -71,6 +71,17 @@ def replay(case):
                             what, err, cfg['dims'], cfg['rx'])))
                     if name == 'als' and any(a > g for a, g in zip(r.ranks, x0.ranks)):
                         out.append(('%s:rank' % tag, 'ALS raised a rank: %r > %r' % (r.ranks, x0.ranks)))
+                    # the same system with a right-hand side of tiny (2^-44) and of huge (2^44) magnitude: the solution scales
+                    # with it, relative cut-offs (default threshold 1e-12 of MALS) must not notice
+                    for e2 in (-44, 44):
+                        bs = (2.0 ** e2) * b
+                        kw2 = {} if name == 'als' else dict(threshold=1e-12)
+                        rs = (sle.als if name == 'als' else sle.mals)(A, x0, bs, repeats=1, solver=micro, **kw2)
+                        errs = float(np.max(np.abs(dense_vec(rs) * 2.0 ** (-e2) - xsd))) if not metadata_problem(rs) else np.inf
+                        if not errs <= 1e-7 * scale:
+                            out.append(('%s:%s:scaled:%s' % (tag, cfg['guess'], kind), 'right-hand side scaled by 2^%d: the result is not the '
+                                        'scaled exact solution (relative error %.3e, ranks %r)' % (e2, errs / scale, getattr(rs, 'ranks', None))))
+                            break
                 else:
                     E = []
                     for rep in range(0, 4):
